@@ -102,21 +102,3 @@ Definition ptr_ok_rec (vl : list ((N * N) * list vrec)) (r : rec) : bool :=
               | None => false
               end
   end.
-
-(** a GC of file (b, f) is safe when every record it writes back is the one a read of its key
-    returns now (no newer version of the key is visible): excludes the F4 class *)
-Definition gc_safe_b (s : rstore) (b f : N) : bool :=
-  match fget pair_eqb (b, f) (s_vlog s) with
-  | None => true
-  | Some recs =>
-      forallb (fun vr => match lookup_src (v_key vr) maxver (s_src s) with
-                         | Some r => (r_ver r =? v_ver vr) && (r_vid r =? v_vid vr) && negb (r_del r)
-                         | None => false
-                         end) (gc_scan s b f 0 recs)
-  end.
-
-Fixpoint maint_safe (ms : list maint) (s : rstore) : bool :=
-  match ms with
-  | [] => true
-  | m :: ms' => (match m with MtGc b f => gc_safe_b s b f | _ => true end) && maint_safe ms' (maint_step s m)
-  end.
